@@ -77,11 +77,15 @@ def handle (line : String) : String :=
         let ds : List String := if decl == "-" then [] else decl.splitOn ","
         let inputs : List (Option Nat) := ds.zipIdx.map fun (w, i) => if w == "_" then none else some i
         let static : Nat → Option VType := fun id => (ds[id]?).bind fun w => (dtypeOf? w).map VType.tensor
-        let outs := (List.range n).map fun j => some (100 + j)
+        -- `mask`: which output slots are connected (`1`) or left unconnected (`0`, a `None` id)
+        let mask : List Char := ((field ws "mask").getD "").toList
+        let usedSlot (j : Nat) : Bool := (mask[j]?).getD '1' == '1'
+        let outs := (List.range n).map fun j => if usedSlot j then some (100 + j) else none
         let op : OpNode := { rules := rules, inputs := inputs, outputs := outs }
         match propagate false static [op] [] with
         | none => "error"
         | some m => joinWith ";" ((List.range n).map fun j =>
+            if !usedSlot j then "-" else
             match m.get (100 + j) with
             | some t => vtypeName t
             | none => "?")
@@ -125,10 +129,13 @@ def handle (line : String) : String :=
       if pre == "-" then
         s!"elim={b01 (castElimGuard (label static [] 0) to)}"
       else
-        match rulesFor pre "-" 1 with
+        let nout := ((field ws "nout").bind String.toNat?).getD 1
+        let slot := ((field ws "slot").bind String.toNat?).getD 0
+        match rulesFor pre "-" nout with
         | none => "skip"
         | some rules =>
-          let op : OpNode := { rules := rules, inputs := [some 0, some 0, some 2], outputs := [some 1] }
+          let outs := (List.range nout).map fun j => if j == slot then some 1 else none
+          let op : OpNode := { rules := rules, inputs := [some 0, some 0, some 2], outputs := outs }
           match propagate false static [op] [] with
           | some m => s!"elim={b01 (castElimGuard (label static m 1) to)}"
           | none => "error"
